@@ -413,39 +413,46 @@ func (g *group) kase(part string, mi int) kase {
 func dkgRun(g *group, i int, ord []int, ch *fw.Chooser) (*group_create.VerifNode, result) {
 	sigp := "C13:dkg:"
 	tail := ":ids=" + g.idkind
+	type keys struct {
+		at  int
+		sk  *big.Int
+		gpk []byte
+	}
 	var nd *group_create.VerifNode
 	var rcs []int
+	var adopted []keys // the keys at every moment the node reports "aggregation complete" (production adopts them then)
 	p, v, site := fw.Try(func() {
 		nd = group_create.VerifNewNode(g.seeds[i], g.ids[i], g.hash, g.ids)
 		if ch != nil {
 			mapiter.Install(decider(ch))
 			defer mapiter.Uninstall()
 		}
-		for _, j := range ord {
-			rcs = append(rcs, nd.Receive(g.ids[j], g.dealt[j][g.keys[i]]))
+		for t, j := range ord {
+			rc := nd.Receive(g.ids[j], g.dealt[j][g.keys[i]])
+			rcs = append(rcs, rc)
+			if rc == 1 {
+				adopted = append(adopted, keys{t, nd.SignSeckey().GetBigInt(), nd.GroupPubkey().Serialize()})
+			}
 		}
 	})
 	if p {
 		return nil, result{bad: true, sig: "C13:panic:" + site, msg: fmt.Sprintf("panic in DKG receive: %v", v), obs: "panic:" + site}
 	}
 	obs := fmt.Sprintf("rc=%v sk=%x gpk=%x", rcs, nd.SignSeckey().Serialize(), nd.GroupPubkey().Serialize())
-	for t, rc := range rcs {
-		want := 0
-		if t == len(rcs)-1 {
-			want = 1
-		}
-		if rc != want {
-			return nil, result{bad: true, sig: sigp + "incomplete" + tail, obs: obs,
-				msg: fmt.Sprintf("member %d: handleSharePiece return codes %v for arrival order %v (want 0..0,1)", i, rcs, ord)}
-		}
+	if len(adopted) == 0 {
+		return nil, result{bad: true, sig: sigp + "incomplete" + tail, obs: obs,
+			msg: fmt.Sprintf("member %d: key generation never completed after the pieces of all %d dealers arrived in order %v (return codes %v)", i, g.n, ord, rcs)}
 	}
-	if got := nd.SignSeckey().GetBigInt(); new(big.Int).Mod(got, order).Cmp(g.skWant[i]) != 0 {
-		return nd, result{bad: true, sig: sigp + "sign-key-not-sum-of-shares" + tail, obs: obs,
-			msg: fmt.Sprintf("member %d arrival %v: sign key %x, sum of received shares %x", i, ord, got, g.skWant[i])}
-	}
-	if got := nd.GroupPubkey().Serialize(); !bytes.Equal(got, g.gpkWant) {
-		return nd, result{bad: true, sig: sigp + "group-key-not-sum-of-dealer-keys" + tail, obs: obs,
-			msg: fmt.Sprintf("member %d arrival %v: group pubkey %x, (sum of dealer secrets)*G2 = %x", i, ord, got, g.gpkWant)}
+	adopted = append(adopted, keys{len(ord), nd.SignSeckey().GetBigInt(), nd.GroupPubkey().Serialize()})
+	for _, a := range adopted {
+		if new(big.Int).Mod(a.sk, order).Cmp(g.skWant[i]) != 0 {
+			return nd, result{bad: true, sig: sigp + "sign-key-not-sum-of-shares" + tail, obs: obs,
+				msg: fmt.Sprintf("member %d arrival %v (return codes %v): sign key after %d pieces %x, sum of the shares dealt to it %x", i, ord, rcs, a.at+1, a.sk, g.skWant[i])}
+		}
+		if !bytes.Equal(a.gpk, g.gpkWant) {
+			return nd, result{bad: true, sig: sigp + "group-key-not-sum-of-dealer-keys" + tail, obs: obs,
+				msg: fmt.Sprintf("member %d arrival %v (return codes %v): group pubkey after %d pieces %x, (sum of dealer secrets)*G2 = %x", i, ord, rcs, a.at+1, a.gpk, g.gpkWant)}
+		}
 	}
 	return nd, result{outcome: "dkg:keys-agree", obs: obs}
 }
@@ -709,8 +716,45 @@ func params(thorough bool) tierParams {
 
 var idkinds = []string{"hash", "small", "big"}
 
+// mapSelfTest checks the claim the decider relies on: in an insert-only one-bucket map start
+// offsets 0..count-1 give the count rotations of the insertion order and offsets >= count repeat offset 0.
+func mapSelfTest() error {
+	m := map[string]int{}
+	for i, k := range []string{"a", "b", "c", "d", "e"} {
+		m[k] = i
+	}
+	seen := map[string]bool{}
+	first := ""
+	for off := 0; off < 8; off++ {
+		o := off
+		mapiter.Install(func(count int, B uint8) (uintptr, bool) { return mapiter.Start(0, o, B), true })
+		s := ""
+		for k := range m {
+			s += k
+		}
+		mapiter.Uninstall()
+		if off == 0 {
+			first = s
+			if s != "abcde" {
+				return fmt.Errorf("offset 0 iterates %q, want insertion order", s)
+			}
+		}
+		if off >= len(m) && s != first {
+			return fmt.Errorf("offset %d iterates %q, want %q", off, s, first)
+		}
+		seen[s] = true
+	}
+	if len(seen) != len(m) {
+		return fmt.Errorf("%d distinct orders, want %d", len(seen), len(m))
+	}
+	return nil
+}
+
 func run(c *fw.Ctx) {
 	boot()
+	if err := mapSelfTest(); err != nil {
+		c.Cap("map iteration control self-test failed: " + err.Error())
+	}
 	tp := params(c.Thorough())
 	var idx int64
 	mine := func() bool { idx++; return c.Mine(idx) }
